@@ -31,6 +31,11 @@ _SCRATCH = None
 def scratch_dir():
     global _SCRATCH
     if _SCRATCH is None:
+        shared = os.environ.get("VERIF_SCRATCH_RUN")
+        if shared and os.path.isdir(shared):
+            # one directory per check run, created and removed by vlib/run.py; files carry the pid of their process
+            _SCRATCH = shared
+            return _SCRATCH
         base = os.environ.get("VERIF_SCRATCH") or tempfile.gettempdir()
         _SCRATCH = tempfile.mkdtemp(prefix="reduino-verif-", dir=base)
         import atexit
